@@ -27,11 +27,17 @@
 (* are licensed by the grammar without consulting operator precedence      *)
 (* (docs/syntax.md has none): <<kind, from, to, wrappable>>.               *)
 (*                                                                         *)
-(* Bounds: Fuel = composite productions per statement (leaves are chosen   *)
-(* by rotation once the fuel is spent), MaxStmt statements, MaxTok tokens. *)
-(* Exhaustive BFS enumerates *every* derivation within the bounds;         *)
-(* -simulate samples larger ones.  Every finished program is printed as    *)
-(*   <<"CASE", ToJson([toks, ranges, prods])>>.                            *)
+(* Bounds: every nonterminal has one *default* production (fact/rule,      *)
+(* plain head, one positional argument, single-atom body, a leaf chosen by *)
+(* rotation); every other production costs one unit of Fuel, and Fuel is   *)
+(* given per statement.  So Fuel = k enumerates every program in which at  *)
+(* most k non-default productions are combined per statement (every        *)
+(* production alone for k = 1, every nesting / juxtaposition of two for    *)
+(* k = 2).  MaxStmt statements, MaxTok tokens.  Exhaustive BFS enumerates  *)
+(* *every* derivation within the bounds; -simulate samples larger ones.    *)
+(* Names (variables, predicates, fields, numbers) are picked by position,  *)
+(* so the enumeration ranges over shapes, not spellings.  Every finished    *)
+(* program is printed as <<"CASE", ToJson([toks, ranges, prods])>>.        *)
 (***************************************************************************)
 EXTENDS Naturals, Sequences, FiniteSets, TLC, Json
 
